@@ -134,6 +134,28 @@ def gen(read):
     # 6. the batch's buffers go back to the pool only after the vectored write of that batch has been awaited
     wa = re.search(r"Self::write_iovs\s*\([^;]*?\)\s*\.\s*await", body, flags=re.S)
     released_after = bool(wa) and rel.start() > wa.end()
+    # 7. in-flight accounting (Conn::submit_request): admission increments the counter it has just read; the spawned task
+    #    ends by re-reading the LIVE counter and decrementing it
+    sr = re.search(r"fn\s+submit_request\b", src)
+    if not sr:
+        raise Shape("headroom: submit_request not found")
+    sb = src.index("{", src.index(")", sr.end()))
+    sbody = src[sb:close(src, sb) + 1]
+    sp = re.search(r"spawn_local\s*\(", sbody)
+    sets = list(re.finditer(r"inflight_requests\s*\.\s*set\s*\(([^;]*)\)\s*;", sbody))
+    if not sp or len(sets) < 2:
+        raise Shape("headroom: the in-flight counter's admission / completion updates not found in submit_request")
+    last = sets[-1]
+    expr = re.sub(r"\s", "", last.group(1))
+    live_dec = False
+    if last.start() > sp.start():
+        m1 = re.fullmatch(r"(\w+)\.saturating_sub\(1\)", expr)
+        if expr == "inflight_requests.get().saturating_sub(1)":
+            live_dec = True
+        elif m1:
+            # the variable must be read from the live counter inside the task, after its select! has finished
+            rd = [x for x in re.finditer(r"let\s+" + re.escape(m1.group(1)) + r"\s*=\s*inflight_requests\s*\.\s*get\s*\(\s*\)\s*;", sbody)]
+            live_dec = any(sp.start() < x.start() < last.start() for x in rd)
     bl = lambda x: "true" if x else "false"
     return "\n".join([
         "(* GENERATED by translator/headroom.py from /repo/crates/common/src/conn.rs — do not edit *)",
@@ -153,7 +175,9 @@ def gen(read):
         "(* the batch write is awaited inside a select! that also polls the close channel and the shutdown token *)",
         "Definition write_raced_with_close : bool := %s." % bl(raced),
         "(* release_buffers of the batch comes after the awaited vectored write of that batch *)",
-        "Definition batch_released_after_write : bool := %s." % bl(released_after), ""])
+        "Definition batch_released_after_write : bool := %s." % bl(released_after),
+        "(* a finished request task decrements the counter it re-reads at that moment (not a value captured at admission) *)",
+        "Definition inflight_decrements_live_counter : bool := %s." % bl(live_dec), ""])
 
 
 def fallback(msg):
@@ -164,7 +188,8 @@ def fallback(msg):
         "Definition pool_per_connection : N := 0%N.", "Definition pool_per_iovs : N := 0%N.", "Definition pool_constant : N := 0%N.",
         "Definition permits_per_iovs : N := 0%N.", "Definition extras_guarded : bool := false.",
         "Definition permits_kept_until_release : bool := false.", "Definition single_buffer_sites : N := 0%N.",
-        "Definition write_raced_with_close : bool := false.", "Definition batch_released_after_write : bool := false.", ""])
+        "Definition write_raced_with_close : bool := false.", "Definition batch_released_after_write : bool := false.",
+        "Definition inflight_decrements_live_counter : bool := false.", ""])
 
 
 if __name__ == "__main__":
